@@ -79,7 +79,9 @@ PROPS = {
         "explanation": "routing(cfg, d) = select_oracle(.., filter_oracle(.., discover_oracle())) composes the adapter oracles exactly as the property "
                        "states; the automaton accepts a Transfer only as last event with the chosen target's ip text and port, and a no-target "
                        "Disconnect only with localize_oracle(Some(client locale), \"disconnect_no_target\").",
-        "not_covered": ["FixedLocalizationAdapter's region -> language -> default fallback chain (match_indices/HashMap code, outside Verus)"],
+        "bounded": [("fixed_locale", "FixedLocalizationAdapter::localize / append_locale (str slicing by byte index, match_indices, nested HashMap lookups: outside the "
+                     "verifier's reach): the region -> language -> default fallback chain, exhaustively for 3 default locales x 11 client locales x 256 table sets x 2 keys")],
+        "not_covered": ["FixedLocalizationAdapter's fallback chain is checked by the bounded stand-in `fixed_locale` only (16896 cases), not proved"],
         "assumptions": ["IpAddr::to_string is the canonical text (ip_text, uninterpreted)"],
     },
     "C06": {
